@@ -11,6 +11,7 @@ import (
 	"math/big"
 	"os"
 	"os/exec"
+	"runtime"
 	"strconv"
 	"strings"
 	"time"
@@ -167,7 +168,12 @@ func cone(roots []*Term) (levels [][]*Term, syms []*Term) {
 // check decides satisfiability of the conjunction of pc and extra (one-shot: the solver is reset and
 // receives only the cone of influence of this query, as one assertion with let-bound shared
 // sub-terms). If want is non-empty and the answer is sat, the values of those terms are returned.
+// solverSlots bounds the number of solver queries in flight across all harnesses of the process.
+var solverSlots = make(chan bool, runtime.NumCPU())
+
 func (s *Solver) check(pc []*Term, extra *Term, want []*Term) (string, []*big.Int) {
+	solverSlots <- true
+	defer func() { <-solverSlots }()
 	t0 := time.Now()
 	roots := append([]*Term{}, pc...)
 	if extra != nil {
